@@ -17,14 +17,14 @@ RULE = (
     "every eliminated set E not containing them: the ballot is written once as a RAIRE-format row, read by both readers, "
     "and the audit-side assorter value (assertion built through make_assertions_from_json) is compared with "
     "(w - l + 1)/2 from the generator's own is_vote_for_winner/loser (again with the card's {candidate: rank} dictionary keyed in reverse and by name; and every pair of "
-    "assertions built together through one make_assertions_from_json call must come back as two assertions scoring all rankings as the generator's do; and every card carrying TWO ranked contests with the same candidate labels, every pair of rankings, one card object scored by every assertion for the first contest, the second, and the first again); (b) RAIRE-format files with 1-2 contests, repeated "
+    "assertions built together through one make_assertions_from_json call must come back as two assertions scoring all rankings as the generator's do; and every card carrying TWO ranked contests with the same candidate labels, every pair of rankings, one card object scored by every assertion for the first contest, the second, and the first again, the card built directly and read from a two-contest file by both readers); (b) RAIRE-format files with 1-2 contests, repeated "
     "ballot identifiers across contests and all rankings as ballots: both readers must induce the same preference order "
     "on every (ballot, contest); (c) every assertion returned by compute_raire_assertions on the profile lattice, "
     "re-applied to the CVRs through its own predicates, must reproduce its reported tallies.  Non-trivial = (ballot, "
     "assertion) with assorter value != 1/2; distinct = distinct (n, ballot, assertion, value)"
 )
 ASSUMPTIONS = ["duplicate-free rankings only (as the property states)", "candidate identifiers without commas or surrounding blanks"]
-REQUIRE_VAC = ["assorter_values_0", "assorter_values_1", "NEN_assertions_reapplied", "reader_ballots_compared", "files_read", "assertion_pairs_built_together", "pairs_with_same_winner_and_loser", "cards_with_two_ranked_contests", "two_contest_cards_scored_differently_in_the_two_contests"]
+REQUIRE_VAC = ["assorter_values_0", "assorter_values_1", "NEN_assertions_reapplied", "reader_ballots_compared", "files_read", "assertion_pairs_built_together", "pairs_with_same_winner_and_loser", "cards_with_two_ranked_contests", "two_contest_cards_scored_differently_in_the_two_contests", "two_contest_files_read_and_scored"]
 PLAN = {"quick": {"ns": [2, 3, 4], "reapply": [(3, 4), (4, 2)], "twocon": 3}, "thorough": {"ns": [2, 3, 4, 5], "reapply": [(3, 6), (4, 3), (5, 2)], "twocon": 4}}
 TMP = "/dev/shm" if os.path.isdir("/dev/shm") else None
 
@@ -164,6 +164,33 @@ def judge_two_contest_card(n, r1, r2, built=None):
     return out, vals
 
 
+def judge_two_contest_file(n, i, built=None):
+    """the same cards written as ONE RAIRE-format file with two contests over the same labels and shared ballot identifiers,
+    read by both readers: the audit reader's card objects are scored for con1, con2, con1 against the generator's verdicts
+    on the generator reader's ballots"""
+    if built is None:
+        built = {a: (build_pair(n, a, "con1"), build_pair(n, a, "con2")) for a in assertion_menu(n)}
+    alpha = list(R.rankings(n))
+    try:
+        cvs, _, _, _, rcvrs = read_both(raire_file_text([("con1", n, [(f"b{j}", alpha[i]) for j in range(len(alpha))]), ("con2", n, [(f"b{j}", r2) for j, r2 in enumerate(alpha)])]))
+    except Exception as e:  # noqa
+        return [(f"C14|reader-exception|{type(e).__name__}", f"reading a two-contest file raised {type(e).__name__}: {e}")]
+    if {c.id for c in cvs} != set(rcvrs) or len(cvs) != len(alpha):
+        return [("C14|readers|ballot-set", f"two-contest file: audit reader {len(cvs)} cards, generator reader {len(rcvrs)}, written {len(alpha)}")]
+    for c in cvs:
+        for a, ((asn1, gen1), (asn2, gen2)) in built.items():
+            want1 = (gen1.is_vote_for_winner(rcvrs[c.id]) - gen1.is_vote_for_loser(rcvrs[c.id]) + 1) / 2
+            want2 = (gen2.is_vote_for_winner(rcvrs[c.id]) - gen2.is_vote_for_loser(rcvrs[c.id]) + 1) / 2
+            try:
+                got = (asn1.assorter.assort(c), asn2.assorter.assort(c), asn1.assorter.assort(c))
+            except Exception as e:  # noqa
+                return [(f"C14|assorter-exception|{type(e).__name__}", f"audit assorter raised {type(e).__name__}: {e}")]
+            if got != (want1, want2, want1):
+                return [(f"C14|two-contests-on-one-card-from-file|{a[0]}", f"ballot {c.id} of a two-contest file (audit reader: {c.votes}): {a[0]} {s2r.NAMES[a[1]]}>{s2r.NAMES[a[2]]} elim "
+                         f"{[s2r.NAMES[x] for x in a[3]]} scored for con1, con2, con1 again: {got}; the generator's verdicts on its own reading give {(want1, want2, want1)}")]
+    return []
+
+
 def run_twocon_shard(sh, rec):
     _, n, i = sh
     alpha = list(R.rankings(n))
@@ -180,6 +207,10 @@ def run_twocon_shard(sh, rec):
         rec.observe((n, alpha[i], r2, tuple(vals)))
         for key, what in v:
             rec.violate(key, what, {"kind": "twocon", "n": n, "r1": list(alpha[i]), "r2": list(r2)})
+    for key, what in judge_two_contest_file(n, i, built):
+        rec.violate(key, what, {"kind": "twocon-file", "n": n, "i": i})
+    rec.evals(2)
+    rec.vac("two_contest_files_read_and_scored")
 
 
 def judge_pair(n, a1, a2):
@@ -396,6 +427,8 @@ def run_case(case):
         return judge_pair(case["n"], (a1[0], a1[1], a1[2], tuple(a1[3])), (a2[0], a2[1], a2[2], tuple(a2[3])))
     if case["kind"] == "twocon":
         return judge_two_contest_card(case["n"], tuple(case["r1"]), tuple(case["r2"]))[0]
+    if case["kind"] == "twocon-file":
+        return judge_two_contest_file(case["n"], case["i"])
     if case["kind"] == "readers":
         return judge_readers(case["n"], case["layout"])[0]
     return judge_reapply(case["n"], tuple(case["profile"]), case["winner"], case["func"])[0]
